@@ -94,6 +94,24 @@ fn apply_stage(src: Src, st: &str) -> Src {
             let ys: Src = Arc::new(from_iter(list(1)));
             Arc::new(concat(vec![ys, src].into_boxed_slice()))
         }
+        "cat" => {
+            // concat! of several members: "_" is the pipeline so far, the others are from_iter over a list
+            let members: Vec<Src> = parts
+                .get(1)
+                .copied()
+                .unwrap_or("_")
+                .split('/')
+                .map(|m| -> Src {
+                    if m == "_" {
+                        Arc::clone(&src)
+                    } else {
+                        let ys: Vec<usize> = crate::parse_list(m).into_iter().map(|x| x as usize).collect();
+                        Arc::new(from_iter(ys))
+                    }
+                })
+                .collect();
+            Arc::new(concat(members.into_boxed_slice()))
+        }
         "flatmap" => {
             let m = num(1);
             let mapped: Arc<Source<Src>> =
